@@ -1768,8 +1768,10 @@ class SmartServerRepositoryGetStreamForMissingKeys(SmartServerRepositoryRequest)
             source = repository._get_source(self._to_format)
             keys = []
             for entry in body_bytes.split(b"\n"):
-                (kind, revid) = entry.split(b"\t")
-                keys.append((kind.decode("utf-8"), revid))
+                # (kind, revision_id) for inventories..., (kind, file_id,
+                # revision_id) for texts
+                parts = entry.split(b"\t")
+                keys.append((parts[0].decode("utf-8"),) + tuple(parts[1:]))
             stream = source.get_stream_for_missing_keys(keys)
         except Exception:
             try:
